@@ -573,6 +573,8 @@ def get_and_reserve_spendable_utxos(transaction: sqlite3.Connection, accounts: L
     reserved_dewies = 0
     multiplier = base_multiplier
     gap_count = 0
+    # a zero floor never grows (0 * multiplier), every band searched would be the empty [0, 0)
+    floor = max(floor, 1)
 
     while reserved_dewies < amount_to_reserve and gap_count < 5 and floor * multiplier < SQLITE_MAX_INTEGER:
         previous_reserved_dewies = reserved_dewies
